@@ -83,6 +83,18 @@ pub fn check(c: &Case) -> Outcome {
             }
         }
     }
+    // ---- (a') the reported intervals obey max_step too (with first_step the output handler reports x0 + first_step
+    //      by interpolation and drops the step ends before it: what it reports must still be a grid no coarser than max_step)
+    if let (Some(hm), true) = (max_step, c.method != Meth::RK4) {
+        let m = twin.t.len();
+        for (k, w) in twin.t.windows(2).enumerate() {
+            let h = (w[1] - w[0]).abs();
+            let lim = if k + 2 == m { 1.01 * hm } else { hm };
+            if h > lim * (1.0 + 1e-12) + 4.0 * ulp(w[0].abs().max(w[1].abs())) {
+                return Outcome::viol(format!("{}: reported interval {} of {} ([{:e}, {:e}]) has length {:e} > max_step {:e} (first_step={:?})", desc, k, m - 1, w[0], w[1], h, hm, first_step));
+            }
+        }
+    }
     // ---- (b) first_step is the first trial step
     let mut first_checked = false;
     if let Some(h0) = first_step {
